@@ -201,7 +201,7 @@ Definition ev_ok (g : gen) (ev : gev) : Prop :=
     (forall r, In r log -> first <= r_off r) /\ (forall r, In r log -> r_off r < last)
   | GOffsets (Some (first, last)) => forall r, In r log -> first <= r_off r
   | GFetch (FData hwm bytes remain late) =>
-    g_phase g = PRead -> g_desync g = false ->
+    g_phase g = PRead ->
     exists ms e f, run (g_conn g) hwm bytes remain late = Some (ms, e, f) /\ fetch_ok log (g_conn g) ms f
   | _ => True
   end.
@@ -285,10 +285,8 @@ Proof.
     assert (Hro : exists a', (0 <= s0 -> a' = s0) /\ a' <= o' /\ E ++ msgs_of outs0 = mm (between a' o' log)
                              /\ empty log o' c' /\ empty log c' o').
     { unfold read_once in Ero.
-      destruct (g_desync g) eqn:Eds.
-      { injection Ero as <- <- <- <-. exists a. cbn. rewrite app_nil_r. auto. }
       destruct r as [hwm bytes remain late|code| |].
-      - destruct (Hev Hph Eds) as (ms & e0 & f & Hrun & Hok).
+      - destruct (Hev Hph) as (ms & e0 & f & Hrun & Hok).
         rewrite Hrun in Ero. injection Ero as <- <- <- <-.
         rewrite msgs_of_map.
         pose proof (fetch_extends log 0 a (g_offset g) (g_conn g) ms f log_sorted Hal H1 H2 Hok) as Hx.
@@ -299,31 +297,26 @@ Proof.
       - injection Ero as <- <- <- <-. exists a. cbn. rewrite app_nil_r. auto.
       - injection Ero as <- <- <- <-. exists a. cbn. rewrite app_nil_r. auto. }
     destruct Hro as (a' & Hs0' & Ha' & HE' & Hh1 & Hh2).
-    assert (Hgen : forall ph cc att ds extra, msgs_of extra = [] ->
-              gen_inv s0 (mkGen ph o' (if match ph with PInit => true | _ => false end then cc else c') att ds)
+    assert (Hgen : forall ph cc att extra, msgs_of extra = [] ->
+              gen_inv s0 (mkGen ph o' (if match ph with PInit => true | _ => false end then cc else c') att)
                       (E ++ msgs_of (outs0 ++ extra))).
-    { intros ph cc att ds extra Hex. exists a'. cbn [g_offset g_phase g_conn].
+    { intros ph cc att extra Hex. exists a'. cbn [g_offset g_phase g_conn].
       split; [exact Hs0'|]. split; [exact Ha'|]. split.
       - rewrite msgs_of_app, Hex, app_nil_r. exact HE'.
       - destruct ph; intros [H|H]; try discriminate H; auto. }
-    destruct (g_desync g).
-    { injection Hstep as <- <-. rewrite <- (app_nil_r outs0). apply (Hgen PInit FirstOffset 1 false []). reflexivity. }
     destruct e; try (injection Hstep as <- <-; rewrite <- (app_nil_r outs0);
-                     first [apply (Hgen PInit FirstOffset 1 false []); reflexivity
-                           |apply (Hgen PRead 0 0 _ []); reflexivity]).
-    + (* ECodec *) injection Hstep as <- <-. apply (Hgen PInit FirstOffset 1 false [OErr ECodec]). reflexivity.
+                     first [apply (Hgen PInit FirstOffset 1 []); reflexivity
+                           |apply (Hgen PRead 0 0 []); reflexivity]).
+    + (* ECodec *) injection Hstep as <- <-. apply (Hgen PInit FirstOffset 1 [OErr ECodec]). reflexivity.
     + (* EKafka *)
-      destruct code as [|p|p]; try (injection Hstep as <- <-; apply (Hgen PRead 0 0 _ [OErr (EKafka _)]); reflexivity).
+      destruct code as [|p|p]; try (injection Hstep as <- <-; apply (Hgen PRead 0 0 [OErr (EKafka _)]); reflexivity).
       destruct p as [p|p|]; try destruct p as [p|p|]; try destruct p as [p|p|];
         try (injection Hstep as <- <-;
-             first [apply (Hgen PRead 0 0 _ [OErr (EKafka _)]); reflexivity
-                   |rewrite <- (app_nil_r outs0); apply (Hgen PInit FirstOffset 1 false []); reflexivity
-                   |rewrite <- (app_nil_r outs0); apply (Hgen POffsets 0 0 _ []); reflexivity]).
+             first [apply (Hgen PRead 0 0 [OErr (EKafka _)]); reflexivity
+                   |rewrite <- (app_nil_r outs0); apply (Hgen PInit FirstOffset 1 []); reflexivity
+                   |rewrite <- (app_nil_r outs0); apply (Hgen POffsets 0 0 []); reflexivity]).
   - (* POffsets, GOffsets *)
     destruct (Hhole (or_intror eq_refl)) as [H1 H2].
-    destruct (g_desync g).
-    { injection Hstep as <- <-. rewrite app_nil_r. exists a. cbn [g_offset g_phase g_conn].
-      split; [exact Hs0|]. split; [exact Hal|]. split; [exact HE|]. intros [H|H]; discriminate H. }
     destruct r as [[first last]|].
     + cbn in Hev. destruct (g_offset g <? first) eqn:Elt; injection Hstep as <- <-; rewrite app_nil_r;
         exists a; cbn [g_offset g_phase g_conn].
